@@ -192,11 +192,13 @@ func init() {
 				u := shardUnits(DFSArg{Kind: "docstore", Writers: 2, Depth: 4, Alpha: "core"}, 64)
 				u = append(u, shardUnits(DFSArg{Kind: "docstore", Writers: 3, Depth: 4, Alpha: "tiny"}, 48)...)
 				u = append(u, shardUnits(DFSArg{Kind: "docstore", Writers: 1, Depth: 4, Alpha: "keys"}, 16)...)
+				u = append(u, shardUnits(DFSArg{Kind: "docstore", Writers: 2, Depth: 5, Alpha: "tiny", Restart: true}, 32)...)
 				return u
 			}
 			u := shardUnits(DFSArg{Kind: "docstore", Writers: 2, Depth: 3, Alpha: "core"}, 32)
 			u = append(u, shardUnits(DFSArg{Kind: "docstore", Writers: 2, Depth: 4, Alpha: "tiny"}, 16)...)
 			u = append(u, shardUnits(DFSArg{Kind: "docstore", Writers: 1, Depth: 3, Alpha: "keys"}, 8)...)
+			u = append(u, shardUnits(DFSArg{Kind: "docstore", Writers: 2, Depth: 4, Alpha: "tiny", Restart: true}, 16)...)
 			return u
 		},
 		Budget: func(tier string) float64 {
